@@ -28,6 +28,8 @@ type BuildOpts struct {
 	// engines (which differ in codec) build and combine blocks of hundreds of KiB: more than one
 	// internal block of any streaming encoder.
 	BigBlocks bool
+	// MetaIgnoresPrefilter: the engines' MetaStore leaves all prefiltering to the engine.
+	MetaIgnoresPrefilter bool
 }
 
 // Descriptor is the replayable description of a built scenario.
@@ -71,6 +73,7 @@ func BuildWith(r *core.Rand, caseID string, o BuildOpts, pre func(*World)) (*Wor
 	if pre != nil {
 		pre(w)
 	}
+	w.MetaIgnoresPrefilter = o.MetaIgnoresPrefilter
 	d := &Descriptor{Case: caseID, Kind: kind}
 	ne := r.Range(1, 3)
 	if o.SingleSpec {
